@@ -232,15 +232,22 @@ def run(ctx: Ctx) -> None:
     # job sets with counted multisets (the same event type 1, 2 or 3 times in parallel, a different number in every
     # job): which multiset is seen first depends on the presentation.  Outside F's distinct names: only the ingestion
     # clause is judged on them.
-    for _ in range(10 if quick else 60):
+    for _ in range(16 if quick else 90):
         r = ctx.rng
         b = r.choice(["B", "Bx", "K"])
         counts = r.sample([1, 2, 3], k=r.choice([2, 3]))
         jobs = []
+        # the fan-out re-joins in one event (its predecessor list then shows the count), ends the job (nothing but the
+        # number of instances tells the jobs apart), or every instance carries on with a successor of its own
+        shape = r.choice(["join", "join", "terminal", "chains"])
+        ctx.tick(f"counted_{shape}")
         for n in counts:
             nodes = [{"id": 0, "typ": "A", "prev": []}]
             nodes += [{"id": 1 + i, "typ": b, "prev": [0]} for i in range(n)]
-            nodes.append({"id": n + 1, "typ": "C", "prev": list(range(1, n + 1))})
+            if shape == "join":
+                nodes.append({"id": n + 1, "typ": "C", "prev": list(range(1, n + 1))})
+            elif shape == "chains":
+                nodes += [{"id": n + 1 + i, "typ": "C", "prev": [1 + i]} for i in range(n)]
             jobs.append(nodes)
         if r.random() < 0.5:
             jobs.append([{"id": 0, "typ": "A", "prev": []}, {"id": 1, "typ": "D", "prev": [0]},
